@@ -263,6 +263,32 @@ INSTANCES = {"MxEval": eval_instance, "MxInherit": inherit_instance, "MxDyn": dy
 TRANSLATE = {"MxDyn": dyn_translate}
 
 
+def stale71_instance():
+    """Control instance for repair #71: S.b reads T.W.q by attribute path and calls T.W.a, which
+    reads T.t by attribute path.  call b(1); T.t edited (clears a(1), and b(1) as its
+    dependent); b(1) assigned; T.W.q edited."""
+    flib = {"A3": F(I, [["const", 2], ["read", ["_model", "T", "t"]]]),
+            "B6": F(I, [["const", 10], ["call", ["_model", "T", "W", "a"], [["k", 1]], "pos"],
+                        ["read", ["_model", "T", "W", "q"]]])}
+    defs = {"flib": flib, "sigs": {"a": ["i"], "b": ["i"]},
+            "sp": [["S"], ["T"], ["T", "W"]],
+            "bases": [[["S"], []], [["T"], []], [["T", "W"], []]],
+            "cells": [[["T"], {}], [["T", "W"], {"a": {"f": "A3", "cached": True, "an": 0}}],
+                      [["S"], {"b": {"f": "B6", "cached": True, "an": 0}}]],
+            "refs": [[["T"], {"t": {"v": ["int", 1, [], ""], "mode": "auto"}}],
+                     [["T", "W"], {"q": {"v": ["int", 1, [], ""], "mode": "auto"}}], [["S"], {}]],
+            "grefs": {}, "pf": [], "inp": [], "an": False,
+            "span": [[["S"], 0], [["T"], 0], [["T", "W"], 0]]}
+    ops = [{"op": "call", "c": [["S"], [], "b"], "args": [1], "sp": "pos"},
+           {"op": "set_ref", "s": ["T"], "n": "t", "v": ["int", 5, [], ""], "mode": "auto"},
+           {"op": "set_value", "c": [["S"], [], "b"], "args": [1], "v": 60},
+           {"op": "set_ref", "s": ["T", "W"], "n": "q", "v": ["int", 9, [], ""], "mode": "auto"}]
+    return {"inits": [defs], "ops": ops, "curated": 1}
+
+
+CONTROL_INSTANCES = {"stale71": stale71_instance}
+
+
 def write_instance(module, tier, path, seed=0):
     inst = INSTANCES[module](tier, seed)
     with open(path, "w") as f:
